@@ -37,7 +37,9 @@ FEATS = [1, 2, 3, 4, 5, 7, 8, 9, 12, 15, 16, 17, 20, 24, 31, 32, 33, 40, 48, 50,
 @st.composite
 def cases(draw):
     rows = draw(st.one_of(st.integers(1, 24), st.sampled_from([15, 16, 17, 23, 24, 25, 31, 32, 33, 40, 48, 56, 63, 64])))
-    brank = draw(st.integers(1, 3))
+    brank = draw(st.integers(0, 3))
+    if brank == 0:
+        rows = 1
     return {
         "dtype": draw(gen.dtypes),
         "act": draw(st.sampled_from(ACTS)),
@@ -59,6 +61,8 @@ def cases(draw):
 
 
 def batch_shape(rows, brank):
+    if brank == 0:
+        return []  # a single vector of activations (rows is 1)
     if brank == 1:
         return [rows]
     f = [d for d in range(1, rows + 1) if rows % d == 0]
